@@ -198,7 +198,7 @@ def tree_fingerprint():
     return h.hexdigest()[:16]
 
 
-CLI_WRAPS = ["fopen", "abort", "__assert_fail", "exit"]
+CLI_WRAPS = ["fopen", "abort", "__assert_fail", "exit", "fileno", "fstat"]
 
 
 def build_cli():
@@ -246,17 +246,18 @@ def build_cli():
 SCHED_WRAPS = ["malloc", "free", "calloc", "realloc", "strdup", "strndup", "strlen", "strchr", "strrchr", "strstr", "strspn", "strcspn",
                "strncasecmp", "strcasecmp", "strcmp", "strncmp", "memcpy", "memmove", "memset", "memcmp", "memchr", "strcpy", "strncpy",
                "sprintf", "snprintf", "vsprintf", "vsnprintf", "strcat", "strncat", "stpcpy", "strtok_r", "strsep",
-               "idn2_to_ascii_8z", "strtok", "strerror", "rand", "srand", "setlocale", "getenv", "abort", "__assert_fail",
+               "idn2_to_ascii_8z", "strtok", "strerror", "rand", "srand", "setlocale", "getenv", "setenv", "unsetenv", "putenv", "clearenv", "abort", "__assert_fail",
                "pthread_mutex_lock", "pthread_mutex_trylock", "pthread_mutex_unlock", "pthread_mutex_init", "pthread_mutex_destroy",
                "pthread_rwlock_rdlock", "pthread_rwlock_wrlock", "pthread_rwlock_unlock", "pthread_once"]
 
 # externals of the library objects that the C14 runtime models (anything else is reported as unmodelled)
-SCHED_MODELLED = set(SCHED_WRAPS) | {"__ctype_b_loc", "__ctype_tolower_loc", "__ctype_toupper_loc", "idn2_strerror", "__errno_location"}
+SCHED_MODELLED = set(SCHED_WRAPS) | {"__ctype_b_loc", "__ctype_tolower_loc", "__ctype_toupper_loc", "idn2_strerror", "__errno_location",
+                                       "idna_to_ascii_lz", "idna_strerror"}
 HIDDEN_STATE = {"strtok", "strerror", "rand", "srand", "setlocale", "localtime", "gmtime", "asctime", "ctime", "hsearch", "hcreate", "hdestroy",
                 "getpwnam", "getpwuid", "gethostbyname", "readdir", "ttyname", "tmpnam", "drand48", "lrand48", "random", "srandom", "ecvt", "fcvt", "getenv", "setenv", "putenv"}
 
 
-def build_sched(variant="", defs=()):
+def build_sched(variant="", defs=(), backend="idn2"):
     """C14: library compiled with -fsanitize=thread (compiler inserts __tsan_* calls), linked against
     sim/sched/rt.cpp instead of libtsan.  The library objects' writable sections are renamed so that
     the linker brackets them with __start_/__stop_ symbols (pristine snapshot / reset per run)."""
@@ -264,18 +265,24 @@ def build_sched(variant="", defs=()):
     if os.path.isdir(d):
         shutil.rmtree(d)
     tsan = ["-O1", "-g", "-gdwarf-4", "-fsanitize=thread", "-fno-builtin", "-fno-omit-frame-pointer"]
-    objs = compile_lib(d, "idn2", tsan, list(defs))
+    objs = compile_lib(d, backend, tsan, list(defs))
     ext = undefined_externals(objs)
     rename_writable_sections(objs)
     sim = os.path.join(VERIF, "sim")
-    inc = ["-I" + os.path.join(REPO, "include"), "-I" + REPO, "-DHAVE_LIBIDN2"] + list(defs)
+    inc = ["-I" + os.path.join(REPO, "include"), "-I" + REPO] + BACKEND_DEFS[backend] + list(defs)
     plain = ["-O1", "-g", "-gdwarf-4", "-fno-omit-frame-pointer", "-fPIC"]
     rt_o = os.path.join(d, "rt.o"); sm_o = os.path.join(d, "sched_sim.o")
     jobs = [[CXX, "-std=c++17", "-Wall"] + plain + ["-c", os.path.join(sim, "sched/rt.cpp"), "-o", rt_o],
             [CXX, "-std=c++17", "-Wall"] + plain + inc + ["-c", os.path.join(sim, "sched/sched_sim.cpp"), "-o", sm_o]]
+    more = []
+    if backend == "idn":        # the libidn stand-in (uninstrumented, like the real library would be) over the same converter
+        ad_o = os.path.join(d, "adapter.o"); cv_o = os.path.join(d, "conv_shim.o")
+        jobs.append([CC, "-std=gnu99", "-Wall"] + plain + ["-I" + os.path.join(sim, "adapters")] + ["-c", os.path.join(sim, "adapters/adapter_idn.c"), "-o", ad_o])
+        jobs.append([CC, "-std=gnu99", "-Wall"] + plain + ["-c", os.path.join(sim, "sched/conv_shim.c"), "-o", cv_o])
+        more = [ad_o, cv_o]
     compile_many(jobs, {0})
     exe = os.path.join(d, "sched")
-    run([CXX, "-rdynamic", "-o", exe, sm_o, rt_o] + objs + ["-lidn2", "-lpthread", "-ldl"]
+    run([CXX, "-rdynamic", "-o", exe, sm_o, rt_o] + more + objs + ["-lidn2", "-lpthread", "-ldl"]
         + ["-Wl," + ",".join("--wrap=" + w for w in SCHED_WRAPS)])
     unmodelled = [s for s in ext if s not in SCHED_MODELLED]
     hidden = [s for s in ext if s in HIDDEN_STATE]
